@@ -21,7 +21,7 @@ for p in "$PID" "${EXTRA[@]}"; do
   out="$(cd /verif && VERIF_REPO="$W" ./check "$p" quick 2>&1)"; rc=$?
   first="$(echo "$out" | grep -m1 -A1 '^VIOLATION' | tail -1 | cut -c1-300)"
   RES+=("$p:quick:rc=$rc:$first")
-  if [ $rc -eq 0 ] && [ "$p" = "$PID" ]; then
+  if [ $rc -eq 0 ] && [ "$p" = "$PID" ] && [ "${INTAKE_THOROUGH:-0}" = "1" ]; then
     out="$(cd /verif && VERIF_REPO="$W" ./check "$p" thorough 2>&1)"; rc=$?
     first="$(echo "$out" | grep -m1 -A1 '^VIOLATION' | tail -1 | cut -c1-300)"
     RES+=("$p:thorough:rc=$rc:$first")
